@@ -100,6 +100,7 @@ CONSTANTS
   Vals <- OneVals
   ValUnit = 12
   MaxBatch = 1
+  FutureMax = 0
   ValMode = "free"
   WithSync = FALSE
   Export = "states"
